@@ -704,6 +704,18 @@ _MAKEID_OLD = "        for _ in range(65535):\n            self.id = (self.id + 
 _MAKEID_WHILE = "        candidate = self.id\n        attempts  = 65535\n        while attempts:\n            candidate = (candidate + 1) & 0xFFFF\nZERO            self.id = candidate\n            if not self._idInUse(candidate):\n                break\n            attempts -= 1\n        return candidate\n"
 N("makeId as a counted while loop over a local candidate", ALL, [(FAC, _MAKEID_OLD, _MAKEID_WHILE.replace("ZERO", "            if not candidate:\n                candidate = 1\n"))])
 B("makeId as a while loop that no longer skips identifier 0", ["C17"], [(FAC, _MAKEID_OLD, _MAKEID_WHILE.replace("ZERO", ""))], {"C17": ["ID-RANGE"]})
+_INUSE_OLD = "            if not self._idInUse(self.id):\n                return self.id\n        return self.id\n"
+_INUSE_SET_HEAD = "        taken = set()\n        for windows in (self.windowPublish, self.windowPubRelease, self.windowSubscribe, self.windowUnsubscribe):\n            for window in windows.values():\n                taken.update(window)\n        for queue in self.queuePublishTx.values():\n            QUEUE\nEXTRA"
+_MAKEID_FOR = "        for _ in range(65535):\n"
+def _inuse_set(queue, extra=""):
+    return [(FAC, _MAKEID_FOR, _INUSE_SET_HEAD.replace("QUEUE", queue).replace("EXTRA", extra) + _MAKEID_FOR),
+            (FAC, _INUSE_OLD, "            if self.id not in taken:\n                return self.id\n        return self.id\n")]
+N("makeId testing the candidate against a collected set of the identifiers in use", ALL, _inuse_set("taken.update(request.msgId for request in queue)"))
+B("collected set of identifiers in use filled with the queued request objects", ["C17"], _inuse_set("taken.update(queue)"), {"C17": ["ID-INUSE"]})
+B("collected set of identifiers in use that filters the queued requests", ["C17"],
+  _inuse_set("taken.update(request.msgId for request in queue if request.qos == 2)"), {"C17": ["ID-SCAN"]})
+B("collected set of identifiers in use from which the current counter value is removed again", ["C17"],
+  _inuse_set("taken.update(request.msgId for request in queue)", "        taken.discard(self.id + 1)\n"), {"C17": ["ID-SCAN"]})
 B("whole registry measured through a local alias (retry delay depends on the number of addresses)", ["C19"],
   [(PS, "        interval = request.interval() + 0.25*len(self.factory.windowSubscribe[self.addr])",
     "        windows = self.factory.windowSubscribe\n        interval = request.interval() + 0.25*len(windows)")], {"C19": ["I-KEY"]})
